@@ -67,9 +67,20 @@ Definition dims_ok (rank : option Z) (dims : list sdim) : Prop :=
   Forall (fun d => in_range rank (sd_axis d) = true /\ 1 <= sd_shards d) dims
   /\ NoDup (map (fun d => normalize rank (sd_axis d)) dims).
 
+
+(* The invariant is stated relative to a VIEW f of the rank: f = identity gives DevInv (axes within the rank and
+   not repeated after normalisation); f = "unknown" gives the weak invariant DevInvW that survives shape edits of
+   sharded values (axes pairwise distinct as written).  Everything below is proved once, for every view with the
+   two properties f_range / f_norm. *)
+Module Gen.
+Section RankView.
+Variable rk : option Z -> option Z.
+Hypothesis f_range : forall r a, in_range r a = true -> in_range (rk r) a = true.
+Hypothesis f_norm : forall r a b, normalize (rk r) a = normalize (rk r) b -> normalize r a = normalize r b.
+
 (* P: "is a current input/output of the node" *)
 Definition spec_ok (P : valobj -> Prop) (ndev : Z) (sp : spec) : Prop :=
-  P (sp_val sp) /\ dims_ok (v_rank (sp_val sp)) (sp_dims sp) /\ Forall (fun d => 0 <= d < ndev) (sp_dev sp).
+  P (sp_val sp) /\ dims_ok (rk (v_rank (sp_val sp))) (sp_dims sp) /\ Forall (fun d => 0 <= d < ndev) (sp_dev sp).
 Definition dc_ok (cfgs : list cfgobj) (P : valobj -> Prop) (dc : ndc) : Prop :=
   In (dc_cfg dc) cfgs /\ Forall (spec_ok P (c_ndev (dc_cfg dc))) (dc_specs dc).
 Definition node_ok (cfgs : list cfgobj) (nd : node) : Prop :=
@@ -87,6 +98,12 @@ Definition DevInv (h : state) : Prop := cfgs_ok (s_cfgs h) /\ nodes_ok (s_cfgs h
 
 Definition devs_ok (c : cfgobj) (devs : list Z) : Prop := Forall (fun d => 0 <= d < c_ndev c) devs.
 
+(* a shape edit keeps the recorded axes of v valid under the view (for the identity view: the new rank still
+   contains them and keeps them distinct; for the weak view: always, see setrank_ok_weak) *)
+Definition setrank_ok (h : state) (v : valobj) (r : option Z) : Prop :=
+  forall p dc sp, In p (s_nodes h) -> In dc (n_dc (snd p)) -> In sp (dc_specs dc) -> sp_val sp = v ->
+  dims_ok (rk r) (sp_dims sp).
+
 (* the op alphabet of the invariant theorem (DESIGN §6 C19 reading decisions) *)
 Definition op_ok (h : state) (o : op) : Prop :=
   match o with
@@ -94,6 +111,7 @@ Definition op_ok (h : state) (o : op) : Prop :=
   | OStage _ c _ => In c (s_cfgs h)
   | ORemCfgObj _ cascade => cascade = true
   | ORemCfgName _ cascade => cascade = true
+  | OSetRank v r => setrank_ok h v r
   | _ => True
   end.
 Fixpoint ops_ok (h : state) (ops : list op) : Prop :=
@@ -180,6 +198,20 @@ Proof.
     apply NoDup_snoc; assumption.
 Qed.
 
+Lemma dims_ok_single_f rank a k : in_range rank a = true -> 1 <= k -> dims_ok (rk rank) [mkD a k].
+Proof. intros H1 H2. apply dims_ok_single; [apply f_range; exact H1 | exact H2]. Qed.
+
+Lemma existsb_norm_f rank a dims :
+  existsb (fun e => normalize rank (sd_axis e) =? normalize rank a) dims = false ->
+  existsb (fun e => normalize (rk rank) (sd_axis e) =? normalize (rk rank) a) dims = false.
+Proof.
+  intros E. destruct (existsb (fun e => normalize (rk rank) (sd_axis e) =? normalize (rk rank) a) dims) eqn:X; [|reflexivity].
+  apply existsb_exists in X. destruct X as [e [He Heq]]. apply Z.eqb_eq in Heq. apply f_norm in Heq.
+  assert (existsb (fun e => normalize rank (sd_axis e) =? normalize rank a) dims = true).
+  { apply existsb_exists. exists e. split; [exact He | apply Z.eqb_eq; exact Heq]. }
+  congruence.
+Qed.
+
 Lemma merge_specs_ok (P : valobj -> Prop) ndev v a k devs specs specs' :
   Forall (spec_ok P ndev) specs -> P v -> in_range (v_rank v) a = true -> 1 <= k ->
   Forall (fun d => 0 <= d < ndev) devs ->
@@ -187,13 +219,13 @@ Lemma merge_specs_ok (P : valobj -> Prop) ndev v a k devs specs specs' :
 Proof.
   intros F Pv Hr Hk Hd. revert specs' F. induction specs as [|sp r IH]; intros specs' F M; simpl in M.
   - inversion M; subst. constructor; [|constructor]. split; [exact Pv|]. split; [|exact Hd].
-    simpl. apply dims_ok_single; assumption.
+    simpl. apply dims_ok_single_f; assumption.
   - inversion F as [|? ? Hsp Hr']; subst.
     destruct (v_eqb (sp_val sp) v) eqn:E.
     + apply v_eqb_eq in E.
       destruct (existsb _ (sp_dims sp)) eqn:X; [discriminate|]. inversion M; subst. clear M.
       constructor; [|exact Hr']. destruct Hsp as [A [B C]]. split; [exact A|]. simpl. split.
-      * apply dims_ok_snoc; try assumption.
+      * apply dims_ok_snoc; try assumption; [apply f_range; assumption | apply existsb_norm_f; exact X].
       * apply Forall_app. split; [exact C|]. apply Forall_forall. intros x Hx. apply filter_In in Hx.
         rewrite Forall_forall in Hd. apply Hd. tauto.
     + destruct (merge_specs v (mkD a k) devs r) as [r'|e] eqn:R; [|discriminate]. inversion M; subst.
@@ -207,7 +239,7 @@ Lemma shard_dcs_ok cfgs (P : valobj -> Prop) c v a k devs stage dcs dcs' :
 Proof.
   intros F Hc Hd Pv Hr Hk. revert dcs' F. induction dcs as [|dc r IH]; intros dcs' F M; simpl in M.
   - inversion M; subst. constructor; [|constructor]. split; [exact Hc|]. simpl.
-    constructor; [|constructor]. split; [exact Pv|]. split; [apply dims_ok_single; assumption | exact Hd].
+    constructor; [|constructor]. split; [exact Pv|]. split; [apply dims_ok_single_f; assumption | exact Hd].
   - inversion F as [|? ? Hdc Hr']; subst.
     destruct (c_eqb (dc_cfg dc) c) eqn:E.
     + apply c_eqb_eq in E. destruct (stage_conflict stage (dc_stage dc)); [discriminate|].
@@ -779,6 +811,25 @@ Proof.
   - rewrite roundtrip_identity by (try assumption; lia). exact Hinv.
 Qed.
 
+(* ------------------------------------------------------------------ shape edit *)
+Lemma sub_io v v' nd w : In w (io nd) -> In (sub_v v v' w) (io (sub_node v v' nd)).
+Proof.
+  intros H. apply io_In in H. apply io_In. simpl. destruct H as [H|H].
+  - left. apply (in_map (option_map (sub_v v v'))) in H. exact H.
+  - right. apply in_map. exact H.
+Qed.
+
+Lemma set_rank_inv h v r : DevInv h -> setrank_ok h v r -> DevInv (set_rank h v r).
+Proof.
+  intros [Hc Hn] Hs. split; [exact Hc|]. simpl. unfold nodes_ok in *. rewrite Forall_map.
+  rewrite Forall_forall in *. intros p Hp. specialize (Hn p Hp). simpl. unfold node_ok in *. simpl.
+  rewrite Forall_map. rewrite Forall_forall in *. intros dc Hdc. destruct (Hn dc Hdc) as [A B].
+  split; [exact A|]. simpl. rewrite Forall_map. rewrite Forall_forall in *. intros sp Hsp.
+  destruct (B sp Hsp) as [S1 [S2 S3]]. split; [|split]; simpl; [apply sub_io; exact S1 | | exact S3].
+  unfold sub_v. destruct (v_eqb (sp_val sp) v) eqn:E; simpl; [|exact S2].
+  apply v_eqb_eq in E. eapply Hs; eassumption.
+Qed.
+
 (* ------------------------------------------------------------------ the step lemma and the history theorem *)
 Lemma exec_inv h o : DevInv h -> op_ok h o -> DevInv (fst (exec h o)).
 Proof.
@@ -794,6 +845,7 @@ Proof.
   - apply on_node_inv; [|exact Hinv]. intros nd nd'. apply resize_inputs_nd_ok.
   - apply remove_node_inv. exact Hinv.
   - apply clone_inv. exact Hinv.
+  - apply set_rank_inv; assumption.
   - apply roundtrip_inv. exact Hinv.
 Qed.
 
@@ -809,4 +861,92 @@ Proof.
   intros Hc Hn. split.
   - rewrite Hc. split; constructor.
   - unfold nodes_ok. eapply Forall_impl; [|exact Hn]. intros p Hp. unfold node_ok. rewrite Hp. constructor.
+Qed.
+
+End RankView.
+End Gen.
+Export Gen.
+
+(* ------------------------------------------------------------------ the two views *)
+Definition rv_id (r : option Z) : option Z := r.
+Definition rv_weak (r : option Z) : option Z := None.
+Lemma rv_id_range r a : in_range r a = true -> in_range (rv_id r) a = true. Proof. auto. Qed.
+Lemma rv_id_norm r a b : normalize (rv_id r) a = normalize (rv_id r) b -> normalize r a = normalize r b. Proof. auto. Qed.
+Lemma rv_weak_range r a : in_range r a = true -> in_range (rv_weak r) a = true. Proof. reflexivity. Qed.
+Lemma rv_weak_norm r a b : normalize (rv_weak r) a = normalize (rv_weak r) b -> normalize r a = normalize r b.
+Proof. simpl. intros ->. reflexivity. Qed.
+
+Ltac inst_id X :=
+  first [exact (X rv_id rv_id_range rv_id_norm) | exact (X rv_id rv_id_range) | exact (X rv_id rv_id_norm)
+        | exact (X rv_id)].
+Ltac inst_weak X :=
+  first [exact (X rv_weak rv_weak_range rv_weak_norm) | exact (X rv_weak rv_weak_range)
+        | exact (X rv_weak rv_weak_norm) | exact (X rv_weak)].
+
+(* ------------------------------------------------------------------ the strict view: DevInv *)
+Definition spec_ok := Gen.spec_ok rv_id.
+Definition dc_ok := Gen.dc_ok rv_id.
+Definition node_ok := Gen.node_ok rv_id.
+Definition nodes_ok := Gen.nodes_ok rv_id.
+Definition DevInv := Gen.DevInv rv_id.
+Definition setrank_ok := Gen.setrank_ok rv_id.
+Definition op_ok := Gen.op_ok rv_id.
+Definition ops_ok := Gen.ops_ok rv_id.
+Definition exec_inv := ltac:(inst_id Gen.exec_inv).
+Definition inv_reachable := ltac:(inst_id Gen.inv_reachable).
+Definition inv_initial := ltac:(inst_id Gen.inv_initial).
+Definition deser_ser_id := ltac:(inst_id Gen.deser_ser_id).
+Definition roundtrip_identity := ltac:(inst_id Gen.roundtrip_identity).
+Definition roundtrip_inv := ltac:(inst_id Gen.roundtrip_inv).
+Definition set_rank_inv := ltac:(inst_id Gen.set_rank_inv).
+
+(* ------------------------------------------------------------------ the weak view: DevInvW *)
+(* every spec targets a current input/output; every node configuration is registered; num_shards >= 1; device
+   indices in range; the recorded axes are pairwise distinct as written.  Says nothing about the axes being inside
+   the CURRENT rank: that is what a later shape edit can break. *)
+Definition DevInvW := Gen.DevInv rv_weak.
+Definition op_okW (h : state) (o : op) : Prop :=
+  match o with OSetRank _ _ => True | _ => Gen.op_ok rv_weak h o end.
+Fixpoint ops_okW (h : state) (ops : list op) : Prop :=
+  match ops with [] => True | o :: r => op_okW h o /\ ops_okW (fst (exec h o)) r end.
+
+Lemma setrank_ok_weak h v r : DevInvW h -> Gen.setrank_ok rv_weak h v r.
+Proof.
+  intros [_ Hn] p dc sp Hp Hdc Hsp _. unfold Gen.nodes_ok in Hn. rewrite Forall_forall in Hn.
+  specialize (Hn p Hp). unfold Gen.node_ok in Hn. rewrite Forall_forall in Hn. destruct (Hn dc Hdc) as [_ B].
+  rewrite Forall_forall in B. destruct (B sp Hsp) as [_ [S2 _]]. exact S2.
+Qed.
+
+Lemma exec_invW h o : DevInvW h -> op_okW h o -> DevInvW (fst (exec h o)).
+Proof.
+  intros Hinv Hok. assert (H : Gen.op_ok rv_weak h o).
+  { destruct o; try exact Hok. apply setrank_ok_weak. exact Hinv. }
+  exact (Gen.exec_inv rv_weak rv_weak_range rv_weak_norm h o Hinv H).
+Qed.
+
+Lemma invW_reachable ops : forall h, DevInvW h -> ops_okW h ops -> DevInvW (run h ops).
+Proof.
+  induction ops as [|o r IH]; intros h Hinv Hok; simpl in *; [exact Hinv|].
+  destruct Hok as [H1 H2]. apply IH; [apply exec_invW; assumption | exact H2].
+Qed.
+
+(* the strict invariant implies the weak one *)
+Lemma dims_ok_weaken rank dims : dims_ok rank dims -> dims_ok None dims.
+Proof.
+  intros [F N]. split.
+  - eapply Forall_impl; [|exact F]. intros d [_ H]. split; [reflexivity | exact H].
+  - assert (E : forall a b, normalize None a = normalize None b -> normalize rank a = normalize rank b)
+      by (simpl; intros a b ->; reflexivity).
+    induction dims as [|d r IH]; simpl in *; [constructor|]. inversion N; subst. inversion F; subst.
+    constructor; [|apply IH; assumption]. intros HIn. apply in_map_iff in HIn. destruct HIn as [e [He HIn]].
+    match goal with H : ~ In _ _ |- _ => apply H end. apply in_map_iff. exists e. split; [|exact HIn].
+    destruct rank as [k|]; simpl in *; [rewrite He; reflexivity | exact He].
+Qed.
+
+Lemma DevInv_weaken h : DevInv h -> DevInvW h.
+Proof.
+  intros [Hc Hn]. split; [exact Hc|]. unfold Gen.nodes_ok in *. eapply Forall_impl; [|exact Hn].
+  intros p Hp. unfold Gen.node_ok in *. eapply Forall_impl; [|exact Hp]. intros dc [A B]. split; [exact A|].
+  eapply Forall_impl; [|exact B]. intros sp [S1 [S2 S3]]. split; [exact S1|]. split; [|exact S3].
+  eapply dims_ok_weaken. exact S2.
 Qed.
